@@ -590,6 +590,9 @@ func tailPattern(kind int) *Node {
 		return &Node{Kind: KSeq, Kids: []*Node{x, {Kind: KOptional, Kids: []*Node{{Kind: KRep, Kids: []*Node{y}}}}}}
 	case 2:
 		return &Node{Kind: KOptional, Kids: []*Node{{Kind: KRep, Kids: []*Node{x}}}}
+	case 4:
+		// "X... Y": the parser has to backtrack (the last token belongs to Y) after options have ended
+		return &Node{Kind: KSeq, Kids: []*Node{{Kind: KRep, Kids: []*Node{x}}, y}}
 	default:
 		return &Node{Kind: KSeq, Kids: []*Node{x, y}}
 	}
@@ -616,6 +619,11 @@ func tailExpect(kind int, d *Decls, tail []string) (map[string][]string, bool) {
 		if len(tail) > 0 {
 			m[x] = tail
 		}
+	case 4:
+		if len(tail) < 2 {
+			return nil, false
+		}
+		m[x], m[y] = tail[:len(tail)-1], tail[len(tail)-1:]
 	default:
 		if len(tail) != 2 {
 			return nil, false
